@@ -1217,7 +1217,9 @@ func (c *Ctx) checkThriftErrorDiscipline(rule string) {
 				if isNilConst(x) {
 					x, y = y, x
 				}
-				if !isNilConst(y) || !valueFlowsFrom(x, errVal) || !(b == call.Block() || call.Block().Dominates(b)) {
+				// (the tested value may be a phi that merges this error with an earlier one:
+				// `if err = a(); err == nil { err = b() }; if err != nil { return err }`)
+				if !isNilConst(y) || !valueFlowsFrom(x, errVal) || !(b == call.Block() || call.Block().Dominates(b) || blockReaches(call.Block(), b)) {
 					continue
 				}
 				tested = true
@@ -1371,4 +1373,24 @@ func (c *Ctx) checkWriteErrorsFromProtocol(rule string) {
 func isConstLike(v ssa.Value) bool {
 	_, ok := v.(*ssa.Const)
 	return ok
+}
+
+// blockReaches: b is reachable from a along CFG edges.
+func blockReaches(a, b *ssa.BasicBlock) bool {
+	seen := map[*ssa.BasicBlock]bool{a: true}
+	work := []*ssa.BasicBlock{a}
+	for len(work) > 0 {
+		x := work[0]
+		work = work[1:]
+		for _, s := range x.Succs {
+			if s == b {
+				return true
+			}
+			if !seen[s] {
+				seen[s] = true
+				work = append(work, s)
+			}
+		}
+	}
+	return false
 }
